@@ -284,6 +284,7 @@ func init() {
 	register(&PropertySpec{
 		ID: "C01",
 		Rules: []RuleSpec{
+			{"continuation-fresh-index", "no function literal of a native contract (continuations run after a contract call that can re-enter the native) indexes or slices a native cache slice with a position computed before the literal was created: the cached sorted lists stay in the order a restarted node rebuilds from storage", ruleContinuationFreshIndex},
 			{"err-discipline", "no error returned by a function of the module is discarded (called as a statement or assigned to _) in the native contracts, except at the tabled sites whose reason is recorded: a dropped error is a dropped check or a lost write", func(c *Ctx) { ruleErrDiscipline(c, "pkg/core/native", "pkg/core/state") }},
 			{"absent-is-nil", "a lookup that returns nil for a missing key and may return a stored empty value (dao.GetStorageItem, BoltDB bucket Get) is never tested for absence by length", func(c *Ctx) { ruleAbsentIsNil(c, "pkg/core/native", "pkg/core/state") }},
 			{"unsigned-window", "an ordering comparison one operand of which is the difference of two non-constant unsigned values (a height minus a window) is made only where the function tests the order of those two values: otherwise the difference wraps around and \"older than the retained window\" holds for every height of a short chain", func(c *Ctx) { ruleUnsignedWindow(c, "pkg/core/native", "pkg/core/state") }},
